@@ -2,10 +2,11 @@ SPECIFICATION Spec
 CONSTANTS
   MAX = 48
   COUNTMAX = 255
-  Accounting = "payload"
+  Accounting = "signed"
   Ov <- ZeroOv
   QLEN = 9
   Cs = {"t","h"}
+INVARIANT Fits
 INVARIANT Monotone
 CONSTRAINT EmitCase
 CHECK_DEADLOCK FALSE
